@@ -1909,3 +1909,256 @@ class C07(ProverCheck):
 
 
 E.register(C07())
+
+
+# ---------------------------------------------------------------------------------------
+class BlockGen:
+    """Generator of block-API plans (C09)."""
+
+    def __init__(self, rng, cfg):
+        self.r = rng
+        self.cfg = cfg
+        self.names = ["x%d" % i for i in range(rng.randrange(1, 4))]
+        self.n_inputs = 0
+        self.loopvars = []
+        self.depth = 0
+        self.lvn = 0
+
+    def leaf(self):
+        r = self.r
+        u = r.random()
+        if u < 0.45:
+            return {"tv": r.choice(self.names)}
+        if u < 0.6 and self.loopvars:
+            return {"lv": r.choice(self.loopvars)}
+        if u < 0.75:
+            return {"ref": r.randrange(0, 8), "t": "I"}
+        return {"k": r.choice([0, 1, 2, 3, -1, 5])}
+
+    def expr(self):
+        r = self.r
+        u = r.random()
+        if u < 0.35:
+            return self.leaf()
+        if u < 0.8:
+            return {"op": r.choice(["+", "-"]), "a": self.leaf(), "b": self.leaf()}
+        if u < 0.9:
+            return {"op": "*", "a": self.leaf(), "b": {"k": r.choice([0, 1, 2, -1])}}
+        return {"call": r.choice(["ite", "ite_lazy"]), "cond": self.cond(), "t_": self.leaf(), "f_": self.leaf()}
+
+    def secret(self, e):
+        """e + 0*secret: same value, guaranteed secret-typed (the property is about secret conditions)."""
+        if "ref" in e:
+            return e
+        return {"op": "+", "a": e, "b": {"op": "*", "a": {"ref": self.r.randrange(0, 8), "t": "I"}, "b": {"k": 0}}}
+
+    def cond(self):
+        r = self.r
+        a = {"tv": r.choice(self.names)} if r.random() < 0.7 else {"ref": r.randrange(0, 8), "t": "I"}
+        b = self.leaf()
+        return {"op": r.choice(["<", "<=", "==", "!=", ">", ">="]), "a": self.secret(a), "b": b}
+
+    def body(self, nmax=3):
+        return [self.stmt() for _ in range(self.r.randrange(1, nmax + 1))]
+
+    def stmt(self):
+        r = self.r
+        u = r.random()
+        if self.depth >= self.cfg.get("max_nesting", 2) or u < 0.5:
+            return {"s": "track", "name": r.choice(self.names), "e": self.expr()}
+        self.depth += 1
+        try:
+            if u < 0.75:
+                s = {"s": "block_if", "cond": self.cond(), "then": self.body()}
+                s["elifs"] = [[self.cond(), self.body(2)] for _ in range(r.choice([0, 0, 1, 2]))]
+                s["else"] = self.body(2) if r.random() < 0.6 else None
+                return s
+            if u < 0.88:
+                s = {"s": "block_while", "cond": self.cond(), "max": r.randrange(1, 5), "body": self.body()}
+                if r.random() < 0.5:
+                    s["breakif"] = self.cond()
+                    s["break_pos"] = r.randrange(0, len(s["body"]) + 1)
+                return s
+            self.lvn += 1
+            lv = "_i%d" % self.lvn
+            stop = {"ref": r.randrange(0, 8), "t": "I"}     # inputs are >= 0: the documented domain of a bound
+            self.loopvars.append(lv)
+            s = {"s": "block_for", "stop": stop, "max": r.randrange(1, 5), "lv": lv,
+                 "checkstopmax": r.random() < 0.4, "body": self.body()}
+            if r.random() < 0.3:
+                s["breakif"] = self.cond()
+                s["break_pos"] = r.randrange(0, len(s["body"]) + 1)
+            self.loopvars.pop()
+            return s
+        finally:
+            self.depth -= 1
+
+    def plan(self):
+        r = self.r
+        n_in = r.randrange(1, 4)
+        inputs = [{"kind": r.choice(["priv", "priv", "pub"]), "t": "I", "v": r.choice([0, 1, 2, 3, 4, 5, 6, 7])}
+                  for _ in range(n_in)]
+        body = []
+        for nm in self.names:
+            e = {"ref": r.randrange(0, 8), "t": "I"} if r.random() < 0.5 else {"k": r.choice([0, 1, 2, 3, 10])}
+            body.append({"s": "tracked_init", "name": nm, "e": e})
+        for _ in range(r.randrange(1, 5)):
+            body.append(self.stmt())
+        return {"cfg": self.cfg, "inputs": inputs, "body": body, "blocks": True}
+
+
+class C09(TraceCheck):
+    name = "C09"
+    prop = "C09"
+    props = ("C01",)
+    budget = {"quick": 2000, "thorough": 80000}
+    rule = ("programs over the oblivious block API (_if/_elif/_else/_endif, _while/_breakif/_endwhile with a public "
+            "iteration cap, _range with a secret bound capped by max with and without checkstopmax, lazily "
+            "evaluated if_then_else) on 1-3 tracked variables, nesting <= 3, <= 4 iterations, conditions that are "
+            "comparison results on secrets; executed (a) traced, (b) as a native-control-flow twin generated from "
+            "the same plan on plain ints, (c) traced on a second input vector. oracle: final tracked variables "
+            "equal the native twin's (same exception class if it raises), every emitted constraint satisfied, "
+            "identical constraint system across the two input vectors, no block left open. non-trivial = distinct "
+            "plans containing at least one block whose traced run completed")
+
+    def cfg(self, rng):
+        return {"backend": rng.choice(W.DICT_BACKENDS), "bitlength": rng.choice([8, 12, 16]), "resolution": 2,
+                "max_nesting": rng.choice([1, 2, 3]), "p_try": 0.0, "fxp": False}
+
+    def gen(self, rng, i, tier):
+        cfg = self.cfg(rng)
+        g = BlockGen(rng, cfg)
+        plan = g.plan()
+        alt = [rng.choice([0, 1, 2, 3, 4, 5, 6, 7]) for _ in plan["inputs"]]
+        return {"plan": plan, "alt_inputs": alt}
+
+    def run(self, case):
+        plan = case["plan"]
+        tr = T.TraceRun(plan, props=("C01",)).run()
+        n_out, n_vals, n_src = T.run_native(plan)
+        viol = []
+        probes = dict(tr.probes)
+
+        def add(oracle, site, detail):
+            if not any(v["oracle"] == oracle and v["site"] == site for v in viol):
+                viol.append({"property": "C09", "oracle": oracle, "site": site, "detail": detail})
+        kinds = sorted({s["s"] for s in _all_stmts(plan["body"]) if s["s"].startswith("block_")})
+        site0 = {"blocks": "+".join(k[6:] for k in kinds)}
+        for v in tr.violations:
+            if v["property"] == "C01":
+                add("unsat_constraint", dict(site0, op=v["site"].get("op")), v["detail"])
+        nt = None
+        if tr.outcome == "completed" and n_out == "completed":
+            if tr.open_blocks:
+                add("block_left_open", site0, "%d block contexts still on the stack at the end" % tr.open_blocks)
+            diff = {k: (tr.tracked.get(k), n_vals.get(k)) for k in set(tr.tracked) | set(n_vals)
+                    if tr.tracked.get(k) != n_vals.get(k)}
+            if diff:
+                add("twin_value_differs", site0, "tracked variables (traced, native): %r" % diff)
+            probes["twin_compared"] = 1
+            nt = P.plan_digest(plan) if kinds else None
+            # independence of the conditions
+            alt = list(case.get("alt_inputs", [])) + [i["v"] for i in plan["inputs"]][len(case.get("alt_inputs", [])):]
+            tr2 = T.TraceRun(plan, inputs=alt, props=()).run()
+            if tr2.outcome == "completed":
+                d = segment_diff(tr, tr2)
+                if d is not None:
+                    info = tr.gen.sites.get(d[0], {})
+                    add("structure_differs", dict(site0, op=(info.get("desc") or {}).get("op")),
+                        "site %d: %s" % d)
+                probes["structure_compared"] = 1
+        elif tr.outcome != "completed" and n_out == "completed":
+            cls = tr.outcome.split(":")[1]
+            if not valid_block_plan(plan):
+                probes["invalid_plan_discarded"] = 1
+            elif cls in ("ValueError", "AssertionError") and ("bit" in tr.outcome_msg or "is not" in tr.outcome_msg):
+                probes["traced_out_of_domain_discarded"] = 1
+            else:
+                add("traced_raised_native_did_not", dict(site0, exc=cls), "%s: %s" % (tr.outcome, tr.outcome_msg[:150]))
+        elif tr.outcome == "completed" and n_out != "completed":
+            add("native_raised_traced_did_not", dict(site0, exc=n_out.split(":")[1]), n_out)
+        else:
+            probes["both_raised"] = 1
+            if tr.outcome != n_out:
+                probes["both_raised_different_class"] = 1
+        res = self.result(tr, case, [])
+        res["violations"] = viol
+        res["probes"] = probes
+        res["nontrivial"] = nt
+        res["digest"] = E.sha((res["digest"], sorted(n_vals.items()), n_out))
+        res["faults"] = {"guard0": int(bool(tr.probes.get("step_under_false_block_guard"))),
+                         "guard1": int(bool(tr.probes.get("step_in_block_region")))}
+        return res
+
+
+def valid_block_plan(plan):
+    """Every tracked variable used is initialised at top level before use; every loop variable is used
+    inside its loop (shrinking must not produce programs that are wrong in themselves)."""
+    inited = set()
+
+    def names(e, lvs, out):
+        if isinstance(e, dict):
+            if "tv" in e:
+                out.append(("tv", e["tv"]))
+            if "lv" in e:
+                out.append(("lv", e["lv"]))
+            for v in e.values():
+                names(v, lvs, out)
+        elif isinstance(e, list):
+            for v in e:
+                names(v, lvs, out)
+        return out
+
+    def check(body, lvs, top):
+        for s in body:
+            k = s["s"]
+            used = []
+            for key in ("e", "cond", "stop", "breakif"):
+                if key in s and s[key] is not None:
+                    names(s[key], lvs, used)
+            for c, b in s.get("elifs", []) or []:
+                names(c, lvs, used)
+            for kind, nm in used:
+                if kind == "tv" and nm not in inited:
+                    return False
+                if kind == "lv" and nm not in lvs:
+                    return False
+            if k == "tracked_init":
+                if not top:
+                    return False
+                inited.add(s["name"])
+            elif k == "track":
+                if s["name"] not in inited:
+                    return False
+            elif k == "block_if":
+                for b in [s["then"]] + [b for _, b in s.get("elifs", [])] + ([s["else"]] if s.get("else") is not None else []):
+                    if not check(b, lvs, False):
+                        return False
+            elif k == "block_while":
+                if not check(s["body"], lvs, False):
+                    return False
+            elif k == "block_for":
+                if not check(s["body"], lvs | {s["lv"]}, False):
+                    return False
+        return True
+    return check(plan["body"], set(), True)
+
+
+def _all_stmts(body):
+    for s in body:
+        yield s
+        for k in ("body", "then", "else", "true", "false"):
+            if isinstance(s.get(k), list):
+                yield from _all_stmts(s[k])
+        for c, b in s.get("elifs", []) or []:
+            yield from _all_stmts(b)
+
+
+def _c09_shrink(self, case):
+    for c in P.shrink_plan_candidates(case):
+        if valid_block_plan(c["plan"]):
+            yield c
+
+
+C09.shrink_candidates = _c09_shrink
+E.register(C09())
